@@ -23,7 +23,7 @@ TM == INSTANCE TimerOps WITH B <- 65536, FixedSkipZero <- TRUE
 \* audio ports and mailboxes: the operators of the component modules (their own state machines are not used)
 BT == INSTANCE Btdmp WITH Cap <- 16, TW <- 65536, ResetPeriod <- 4096, FixedSkipOverrun <- TRUE, Vals <- {}, Periods <- {},
                           Clocks <- {}, K <- 0, G <- 0, PhaseKept <- FALSE, s <- 0, ev <- 0, outc <- 0, gin <- 0, gout <- 0, gpad <- 0
-AP == INSTANCE Apbp WITH NCh <- 3, Data <- 0 .. 65535, SemW <- 16, FixedMask <- TRUE
+AP == INSTANCE Apbp WITH NCh <- 3, Data <- 0 .. 65535, SemW <- 16, FixedMask <- TRUE, FixedReentry <- TRUE
 \* DMA engine and AHB bridge: Channel::Start / Channel::Tick and the Ahbm entry points are the operators of Dma.tla /
 \* Ahbm.tla at full width.  counter0 is a u32 in dma.h (FixedD8); a DSP-side access is at byte 2 * (0x20000 + cursor)
 \* mod 2^32 and is performed iff it lies inside the array [0, 0x80000) (RealMap with the range the system recorder's
